@@ -198,7 +198,7 @@ KANI_PRELUDE = """    use smallvec::SmallVec;
 
 KANI_TRUSTED = {
     r"kani::assume\(k < N\)|kani::assume\(b < 64\)|kani::assume\(k < 3 && b < 64\)": "the (word, bit) position at which results are compared ranges over all positions",
-    r"kani::assume\(width <= MAXW\)|kani::assume\(width <= 128\)": "bound of the resize stand-ins: width <= 192 bits (3 words)",
+    r"kani::assume\(width <= 128\)": "canary only: widths up to 2 words",
     r"kani::assume\(x <= u32::MAX as usize\)": "div_ceil is only applied to `width as usize` with width: u32",
 }
 
@@ -208,9 +208,9 @@ KANI_HARNESSES = [
     ("mask_top_word_bits", "bounded", "value::mask_top_word", "words.len()<=3 (all contents, all u32 widths); the Verus job proves it for every length"),
     ("as_i64_contract", "bounded", "Value::as_i64", "words.len()<=2 (all contents, all u32 widths; the function reads only words.first())"),
     ("unknown_at_contract", "bounded", "Value::unknown_at", "words.len()<=3 (all contents, all u32 bit indices)"),
-    ("from_u64_contract", "bounded", "Value::from_u64", "width<=192"),
-    ("from_bits_contract", "bounded", "Value::from_bits", "width<=192, source lengths (0,0),(1,1),(2,2),(3,3),(1,2),(3,1)"),
-    ("to_port_contract", "bounded", "Value::to_port_words / Value::to_port_mask_xz", "width<=192, words.len()<=3"),
+    ("from_u64_contract", "bounded", "Value::from_u64", "widths {0,1,7,63,64,65,100,127,128,129,191,192} (concrete), all contents"),
+    ("from_bits_contract", "bounded", "Value::from_bits", "widths {0,1,7,63,64,65,100,127,128,129,191,192} (concrete), all contents; source lengths (0,0),(1,1),(2,2),(3,3),(1,2),(3,1)"),
+    ("to_port_contract", "bounded", "Value::to_port_words / Value::to_port_mask_xz", "widths {0,1,7,63,64,65,100,127,128,129,191,192} (concrete), all contents; words.len()<=3"),
     ("canary_mask_top_word", "canary", "value::mask_top_word", None),
     ("canary_from_u64", "canary", "Value::from_u64", None),
 ]
